@@ -3,6 +3,8 @@ import re
 from ..tree import *  # noqa
 from ..flow import Index
 from .. import norm
+from .. import norm as norm_it
+from .. import iterdesc
 from ..norm import tail_value
 from .c02 import binding_of_pat, mname
 
@@ -94,23 +96,32 @@ def run(ctx):
     upd = (param_ids(u) + [None] * 3)[2]            # update_expressions(&mut self, ctx, update)
     udefs = local_defs(u)
     done = {}
+    D = iterdesc.Desc(uix, udefs)
     for a in uix.nodes:
         if a.get("k") != "assign":
             continue
         lhs = a["l"]
-        lfp = field_path(lhs)
-        if lfp is None or lfp[1] is None:
+        d = D.of(lhs)
+        alts = list(d[1:]) if d[0] == "oneof" else [d]
+        keys = []
+        for x in alts:
+            if x[0] == "elem" and x[1].startswith("self."):
+                keys.append((x[1][5:], None))
+            elif x[0] == "field" and x[1][0] == "elem" and x[1][1].startswith("self."):
+                keys.append((x[1][1][5:], x[2]))
+            else:
+                keys = None
+                break
+        if not keys or not all(k_ in car for k_ in keys) or len({car[k_] for k_ in keys}) != 1:
             continue
-        src = element_source(uix, udefs, lfp[1])
-        if src is None:
+        it = norm_it.iter_context(uix, a)
+        if it is None or it["kind"] not in ("for", "closure"):
             continue
-        colls, scope, scope_ok = src
-        keys = [(coll, lfp[2][0] if lfp[2] else None) for coll in colls]
-        if not all(k_ in car for k_ in keys) or len({car[k_] for k_ in keys}) != 1:
-            continue
+        _, filtered = D.source(it["src"])
+        scope = it["node"]
         ok, why, anchor = repoint_ok(uix, a, lhs, upd, car[keys[0]])
         # the re-pointing statement runs for every element: directly in the body of the element loop / for_each closure
-        uncond = scope_ok and len(uix.regions[id(anchor)]) == len(uix.regions[id(scope)]) + 1 and not any(x.get("k") in ("break", "continue", "return") and not x.get("inl") for x in walk(scope["body"]))
+        uncond = (not filtered) and len(uix.regions[id(anchor)]) == len(uix.regions[id(scope)]) + 1 and not any(x.get("k") in ("break", "continue", "return") for x in walk(it["body"]))
         for key in keys:
             if done.get(key) is True:
                 continue
@@ -407,7 +418,7 @@ def path_effects(n, inserts, pushes, ins=False, pu=False):
     def expr_paths(e, ins, pu):
         k = e.get("k")
         if k in ("semi",):
-            return [(None, i2, p2, st) for v, i2, p2, st in expr_paths(e["e"], ins, pu)]
+            return [(v if st == "return" else None, i2, p2, st) for v, i2, p2, st in expr_paths(e["e"], ins, pu)]
         if k == "blockexpr":
             return stmts_paths(e["b"]["stmts"], e["b"].get("tail"), ins, pu)
         if k == "block":
